@@ -57,6 +57,8 @@ class TargetReport:
         self.path_samples = []
         self.inlined = {}
         self.chunks = 0
+        self.second = {}               # thorough tier: second-solver verdict -> count
+
 
     def merge(self, other):
         self.paths += other.paths
@@ -78,6 +80,8 @@ class TargetReport:
         self.path_samples = (self.path_samples + other.path_samples)[:3]
         self.inlined.update(other.inlined)
         self.chunks += other.chunks
+        for k, v in other.second.items():
+            self.second[k] = self.second.get(k, 0) + v
 
 
 def concretize(v, model, depth=0):
@@ -370,6 +374,12 @@ def _account_path(target, rep, res, carve, tier, cross_check):
             status, backend, sec, model, sout = smt.check_valid(pc, g)
         ob.status, ob.backend, ob.seconds, ob.solver_out = status, backend, sec, sout
         rep.solver_seconds += sec
+        if tier == 'thorough' and status == 'discharged' and backend.startswith('z3') and _second_sampled(target, pid, label):
+            # two-solver agreement (DESIGN 5.4): the SMT-LIB dump of the obligation goes to cvc5
+            verdict = smt.second_opinion(pc, g)
+            rep.second[verdict] = rep.second.get(verdict, 0) + 1
+            if verdict.startswith('sat'):
+                rep.errors.append(('solver-disagreement', "z3 discharged %s on path %s but cvc5 answers sat" % (ob.oid, pid)))
         if status == 'refuted' and model is not None:
             ob.model = model_inputs(ctx, model)
         if status != 'discharged' or len(rep.obligations) < 2:
@@ -383,6 +393,14 @@ def _account_path(target, rep, res, carve, tier, cross_check):
     if len(rep.path_samples) < 3 and res.outcome == 'done':
         rep.path_samples.append({"path": pid, "choices": dict(ctx.choices), "outcome": repr(res.value)[:200],
                                  "pc_size": len(ctx.pc)})
+
+
+def _second_sampled(target, pid, label):
+    rate = int(getattr(target, 'second_rate', 1) or 1)
+    if rate <= 1:
+        return True
+    import hashlib
+    return int(hashlib.md5(('%s|%s' % (pid, label)).encode()).hexdigest()[:6], 16) % rate == 0
 
 
 def _cross_check(target, rep, res, pid):
@@ -630,6 +648,11 @@ def verify_lemma(lemma, tier='quick'):
             ob.model = model_inputs(ctx, model)
         if status != 'discharged' or len(rep.obligations) < 2:
             ob.smt2 = smt.smt2_of(list(ctx.pc), g)[-20000:]
+        if tier == 'thorough' and status == 'discharged' and backend.startswith('z3'):
+            verdict = smt.second_opinion(list(ctx.pc), g)
+            rep.second[verdict] = rep.second.get(verdict, 0) + 1
+            if verdict.startswith('sat'):
+                rep.errors.append(('solver-disagreement', "z3 discharged %s but cvc5 answers sat" % ob.oid))
         rep.solver_seconds += sec
         rep.obligations.append(ob)
     rep.wall = time.time() - t0
